@@ -32,6 +32,10 @@ class FaceSpanningTree(SpanningTree):
         self.edges = []
 
     def compute(self):
+        # start from empty tables: compute() can be called more than once
+        self.parent = [None]*len(self.mesh.faces)
+        self.children = [[] for v in self.mesh.id_faces]
+        self.edges = []
         dist_to_root = [float("inf") for v in self.mesh.id_faces]
         seen = [False for v in self.mesh.id_faces]
         queue = deque()
@@ -93,6 +97,9 @@ class FaceSpanningForest(SpanningForest):
         self.forbidden_edges : set = forbidden_edges
 
     def compute(self) -> None :
+        # start from an empty forest: compute() can be called more than once
+        self.trees = []
+        self.roots = []
         visited = [False]*len(self.mesh.faces)
         for f in self.mesh.id_faces:
             if not visited[f]:
